@@ -62,6 +62,7 @@ type Spec struct {
 	NotCovered    []string            `json:"not_covered"`
 	Stubs         []string            `json:"stubs"`
 	NoopPkgs      []string            `json:"noop_pkgs"`
+	FuncStubs     []FuncStub          `json:"func_stubs"` // see natives_trust1.go
 	Level         string              `json:"level"`
 }
 
@@ -474,6 +475,7 @@ func loadEngine(spec *Spec) (*Engine, error) {
 	}, spec.NoopPkgs...)
 	e.errString = prog.ImportedPackage("errors").Type("errorString").Type()
 	registerNatives(e)
+	registerFuncStubs(e, spec)
 	// harness packages are built eagerly (cheap) so that entry lookup works
 	for _, p := range pkgs {
 		if sp := prog.Package(p.Types); sp != nil {
@@ -721,6 +723,9 @@ func runNative(spec *Spec, cases []nativeCase) ([]nativeResult, error) {
 		p := filepath.Join(tmp, fmt.Sprintf("rewrite%d.go", i))
 		os.WriteFile(p, []byte(out), 0o644)
 		replace[filepath.Join(repoDir, f)] = p
+	}
+	if err := rewriteFuncStubs(spec, tmp, replace); err != nil {
+		return nil, err
 	}
 	ovJSON, _ := json.Marshal(map[string]any{"Replace": replace})
 	ovPath := filepath.Join(tmp, "overlay.json")
